@@ -2,7 +2,7 @@
    (first part) and ntt_noswap (second part). *)
 From Coq Require Import ZArith Lia List Bool Arith PeanoNat ZifyNat.
 From TF Require Import Word BFieldGen BField XField FieldOps Lucas FieldTheory BFieldProofs BFieldLoops BFieldOk
-  NttRoots Ntt Dft NttLists NttStruct NttDft NttBitrev NttProofs NttXfe.
+  NttRoots Ntt Dft NttLists NttStruct NttDft NttBitrev NttProofs NttXfe NttNsStruct NttNsDft.
 Import ListNotations.
 Local Open Scope Z_scope.
 
@@ -86,3 +86,109 @@ Proof.
 Qed.
 Lemma unscale_b_nil : unscale_b [] = None.
 Proof. reflexivity. Qed.
+
+(* ------------------------------------------------------------------ ntt_noswap *)
+Section GenericNttNoswap.
+  Context {B F K : Type}.
+  Variables (sops : fops B) (ops : fops F) (act : fact B F) (fk : fieldK K).
+  Variables (okS : B -> Prop) (okF : F -> Prop) (hS : B -> K) (hF : F -> K).
+  Hypothesis H : ntt_hom sops ops act fk okS okF hS hF.
+
+  Lemma powers_ok l1 omega : okS omega ->
+    Forall okS (map (pw_entry sops l1 omega (2 ^ l1)) (seq 0 (2 * 2 ^ l1))).
+  Proof.
+    intros Hom. apply Forall_forall. intros v Hv. apply in_map_iff in Hv. destruct Hv as [j [<- _]].
+    unfold pw_entry. destruct ((j <? 2 ^ l1)%nat && (bitrev_nat l1 j <? 2 ^ l1)%nat).
+    - apply (pw_hom sops ops act fk okS okF hS hF H). exact Hom.
+    - exact (proj1 (nh_zero _ _ _ _ _ _ _ _ H)).
+  Qed.
+
+  (* ntt_noswap = the transform, left in bit-reversed order *)
+  Theorem ntt_noswap_spec dbg l x omega : (l <= 32)%nat -> length x = (2 ^ l)%nat -> Forall okF x ->
+    froot sops (2 ^ Z.of_nat l) = Some omega -> okS omega -> half_root fk (hS omega) l ->
+    exists y, ntt_noswap sops ops act dbg x = Some y /\ Forall okF y /\ length y = length x /\
+              map hF y = brev l (dft fk (hS omega) (map hF x)).
+  Proof.
+    intros Hl Hx Hok Hr Hom Hw. unfold ntt_noswap.
+    rewrite Hx, Z_of_nat_pow2, is_pow2_pow2, andb_false_r, Hr.
+    rewrite <- Z_of_nat_pow2, logn_of_pow2 by lia.
+    destruct l as [|l1].
+    - (* a single element: no butterflies *)
+      assert (Ep : powers_bitreversed sops (2 ^ 0) 0 omega = Some [fzero sops]) by reflexivity.
+      rewrite Ep. cbn [Nat.pow ns_loop Nat.ltb Nat.leb].
+      eexists. split; [reflexivity|]. split; [exact Hok|]. split; [reflexivity|].
+      cbn [brev]. symmetry.
+      apply (stages_brev_dft fk 0 (hS omega) (map hF x)); [rewrite map_length; exact Hx|exact I].
+    - change (2 ^ S l1)%nat with (2 * 2 ^ l1)%nat at 1 2.
+      rewrite (powers_bitreversed_spec sops l1 omega).
+      set (powers := map (pw_entry sops l1 omega (2 ^ l1)) (seq 0 (2 * 2 ^ l1))).
+      assert (Lp : length powers = (2 ^ S l1)%nat) by (unfold powers; rewrite map_length, seq_length; reflexivity).
+      destruct (ns_loop_P ops act (S l1) 0 (S (2 ^ S l1)) powers x) as [E1 E2];
+        [pose proof (Nat.pow_gt_lin_r 2 (S l1)); lia|exact Hx|rewrite Lp; cbn [Nat.add]; lia|].
+      cbn [Nat.add] in E1, E2. change (2 ^ 0)%nat with 1%nat in E1, E2.
+      change (2 * 2 ^ l1)%nat with (2 ^ S l1)%nat. rewrite E1.
+      destruct (nsP_hom sops ops act fk okS okF hS hF H (S l1) 1 (2 ^ S l1) powers x (powers_ok l1 omega Hom) Hok)
+        as [O1 O2].
+      eexists. split; [reflexivity|]. split; [exact O1|]. split; [exact E2|].
+      rewrite O2. apply (nsP_brev_dft fk l1 (hS omega) Hw); [rewrite map_length; exact Hx|].
+      intros m Hm. rewrite firstn_map. unfold powers. rewrite (powers_firstn sops l1 omega m Hm), map_map.
+      apply map_ext. intros j. unfold zfK.
+      apply (pw_hom sops ops act fk okS okF hS hF H). exact Hom.
+  Qed.
+End GenericNttNoswap.
+
+(* base field: ntt_noswap x = bitreverse_order (ntt x), on the words *)
+Theorem ntt_noswap_b_spec dbg l x : (l <= 31)%nat -> length x = (2 ^ l)%nat -> Forall canon x ->
+  exists y r, ntt_b x = Some y /\ bitreverse_order y = Some r /\ ntt_noswap_b dbg x = Some r.
+Proof.
+  intros Hl Hx Hok. destruct (root_exists l ltac:(lia)) as [omega Hr].
+  destruct (roots_exact_order l omega ltac:(lia) Hr) as [C [_ [Hh [H0 _]]]].
+  destruct (ntt_noswap_spec bfe_ops bfe_ops bb_act fp_field canon canon bden bden bb_hom dbg l x omega
+              ltac:(lia) Hx Hok Hr C Hh) as [r [Er [Or [Lr Mr]]]].
+  destruct (ntt_b_is_dft l x Hl Hx Hok) as [y [omega' [Hr' [Ey [Oy [Ly My]]]]]].
+  rewrite Hr in Hr'. injection Hr' as <-.
+  exists y, (brev l y). split; [exact Ey|]. split; [apply bitreverse_order_pow2; lia|].
+  unfold ntt_noswap_b. rewrite Er. f_equal. apply map_bden_inj; try assumption.
+  - apply Forall_brev; [lia|exact Oy].
+  - rewrite Mr, <- My, brev_map. reflexivity.
+Qed.
+
+(* the full round trip of the fast-multiplication idiom: ntt_noswap, intt_noswap, unscale *)
+Theorem noswap_round_trip_b dbg l x : (l <= 31)%nat -> length x = (2 ^ l)%nat -> Forall canon x ->
+  exists r z, ntt_noswap_b dbg x = Some r /\ intt_noswap_b dbg r = Some z /\ unscale_b z = Some x.
+Proof.
+  intros Hl Hx Hok.
+  destruct (ntt_noswap_b_spec dbg l x Hl Hx Hok) as [y [r [Ey [Er Ens]]]].
+  destruct (intt_ntt_b l x Hl Hx Hok) as [y' [Ey' Ei]]. rewrite Ey in Ey'. injection Ey' as <-.
+  destruct (ntt_b_is_dft l x Hl Hx Hok) as [y'' [omega [_ [Ey'' [Oy [Ly _]]]]]]. rewrite Ey in Ey''. injection Ey'' as <-.
+  destruct (intt_noswap_unscale_b dbg l y Hl ltac:(lia) Oy) as [r' [z [z' [Er' [Ez [Ez' Ei']]]]]].
+  rewrite Er in Er'. injection Er' as <-. rewrite Ei in Ei'. injection Ei' as <-.
+  exists r, z. split; [exact Ens|]. split; [exact Ez|exact Ez'].
+Qed.
+
+(* extension field: the same, coordinate-wise *)
+Theorem ntt_noswap_x_spec dbg l x : (l <= 31)%nat -> length x = (2 ^ l)%nat -> Forall okX x ->
+  exists y r, ntt_x x = Some y /\ bitreverse_order y = Some r /\ ntt_noswap_x dbg x = Some r.
+Proof.
+  intros Hl Hx Hok. destruct (root_exists l ltac:(lia)) as [omega Hr].
+  destruct (roots_exact_order l omega ltac:(lia) Hr) as [C [_ [Hh [H0 _]]]].
+  destruct (ntt_noswap_spec bfe_ops xfe_ops xb_act fp_field canon okX bden _ xb_hom0 dbg l x omega
+              ltac:(lia) Hx Hok Hr C Hh) as [r [Er [Or [Lr M0]]]].
+  destruct (ntt_noswap_spec bfe_ops xfe_ops xb_act fp_field canon okX bden _ xb_hom1 dbg l x omega
+              ltac:(lia) Hx Hok Hr C Hh) as [r1 [Er1 [_ [_ M1]]]].
+  destruct (ntt_noswap_spec bfe_ops xfe_ops xb_act fp_field canon okX bden _ xb_hom2 dbg l x omega
+              ltac:(lia) Hx Hok Hr C Hh) as [r2 [Er2 [_ [_ M2]]]].
+  rewrite Er in Er1, Er2. injection Er1 as <-. injection Er2 as <-.
+  destruct (ntt_x_is_dft l x Hl Hx Hok) as [y [omega' [Hr' [Ey [Oy [Ly My]]]]]].
+  rewrite Hr in Hr'. injection Hr' as <-.
+  exists y, (brev l y). split; [exact Ey|]. split; [apply bitreverse_order_pow2; lia|].
+  unfold ntt_noswap_x. rewrite Er. f_equal. apply map_xden_inj; try assumption.
+  - apply Forall_brev; [lia|exact Oy].
+  - rewrite <- brev_map, My.
+    destruct (map_p_xden r) as [R0 [R1 R2]]. destruct (map_p_xden x) as [X0 [X1 X2]].
+    destruct (dft3_coords fp_field (bden omega) (map xden x)) as [D0 [D1 D2]].
+    apply k3_list_eq; rewrite <- brev_map.
+    + rewrite R0, D0, X0. exact M0.
+    + rewrite R1, D1, X1. exact M1.
+    + rewrite R2, D2, X2. exact M2.
+Qed.
